@@ -328,6 +328,7 @@ fn main() {
             }
         }
         "layout-replay" => replay_stdin(&mut w, layout::replay),
+        "app-replay" => replay_stdin(&mut w, app::replay),
         "summary-replay" => replay_stdin(&mut w, summary::replay),
         "csvrt-replay" => replay_stdin(&mut w, csvrt::replay),
         "fmvpdf" => {
